@@ -376,7 +376,7 @@ class LinearScale(object):
         return d3_scale_linearTickFormat(self._domain, m, fmt)
 
     def nice(self, m=None):
-        d3_scale_linearNice(self._domain, m)
+        self._domain = d3_scale_linearNice(list(self._domain), m)
         return self.rescale()
 
     def copy(self):
